@@ -59,6 +59,12 @@ pub fn run(ctx: &Ctx) -> Report {
         let w = kind.word_bits();
         let wb = w / 8;
         let mut rng = Rng::derive(ctx.seed, 0xC07 + w as u64 * 11 + kind.buffered() as u64 + if e == En::BE { 0 } else { 7000 });
+        // ---- (0) positions and seeks beyond 2^32 bits (sparse backend, nothing materialised) ----
+        if ctx.tier != Tier::Tiny {
+            for x in [(1u64 << 32) + 3 + (ctx.seed % 64), (1 << 40) + 12345, (1 << 56) + 9] {
+                super::huge::check_read(e, if kind.buffered() { w } else { 0 }, x, 2, rep);
+            }
+        }
         let cops = if ctx.tier == Tier::Tiny { vec![CodeOp::Std(Code::Gamma)] } else { code_ops_for(kind, rep) };
         // ---- (1) every seek target of small streams, from several buffer states, followed by every op ----
         let word_counts: Vec<usize> = match (ctx.tier, w) {
@@ -134,6 +140,50 @@ pub fn run(ctx: &Ctx) -> Report {
             }
             rep.exhaustive(&format!("{}/{}: every seek target 0..={} of a {}-word stream", e.name(), kind.name(), len, nw));
         }
+        // ---- (1b) byte sources whose length is not a multiple of the word: a read that runs into the
+        // partial tail fails and leaves the byte source at its unaligned end; every seek afterwards
+        // must still land exactly (the failed read itself is only required not to panic) ----
+        if wb > 1 && ctx.tier != Tier::Tiny {
+            let nws: Vec<usize> = if ctx.tier == Tier::Thorough { vec![1, 2, 3, 5] } else { vec![1, 3] };
+            for &nw in &nws {
+                let len = nw * w;
+                for tail in 1..wb {
+                    if ctx.tier == Tier::Quick && wb == 8 && tail % 3 == 2 {
+                        continue;
+                    }
+                    let mut img = random_image(&mut rng, Pattern::Random, nw * wb, e);
+                    for _ in 0..tail {
+                        img.push(0xA5 ^ rng.below(256) as u8);
+                    }
+                    let pres: Vec<Vec<ROp>> = vec![vec![ROp::Skip(len)], vec![ROp::Skip(len - 1)], vec![ROp::Skip(len - w + 1)], vec![ROp::Read(1), ROp::Skip(len - w)], vec![ROp::Seek(len as u64)]];
+                    for be in [RBackend::AdCursor, RBackend::AdBufReader] {
+                        let cfg = RCfg { e, kind, be };
+                        for (pi, pre) in pres.iter().enumerate() {
+                            for p in 0..=len {
+                                let a = &after[(p + pi + tail) % after.len()];
+                                let mut ops = pre.clone();
+                                ops.push(ROp::PastEnd);
+                                ops.push(ROp::Seek(p as u64));
+                                ops.push(ROp::Pos);
+                                ops.push(a.clone());
+                                ops.push(ROp::Pos);
+                                ops.push(ROp::Read(20));
+                                ops.push(ROp::Pos);
+                                // a second failed read and seek: the misplacement must not accumulate either
+                                ops.push(ROp::Seek(len as u64));
+                                ops.push(ROp::PastEnd);
+                                ops.push(ROp::Seek((len - p) as u64));
+                                ops.push(ROp::Pos);
+                                ops.push(ROp::Read(9));
+                                ops.push(ROp::Pos);
+                                check("C07", &RCase { cfg, image: img.clone(), ops }, rep, false);
+                                rep.count("seeks_after_failed_read_on_unaligned_source", 2);
+                            }
+                        }
+                    }
+                }
+            }
+        }
         // ---- (2) random interleavings of reads/peeks/skips/code reads/byte reads/seeks, position checked after every step ----
         let o = GenOpts { seeks: true, io: true, codes: true, clones: true, pos: true, max_read_code_len: 200 };
         let nhist = ctx.pick(3, 2000, 15000);
@@ -145,7 +195,14 @@ pub fn run(ctx: &Ctx) -> Report {
                 let cfg = RCfg { e, kind, be };
                 let len = 2 + rng.below(ctx.pick(8, 30, 80)) as usize;
                 let mut ops = vec![];
-                for op in gen_history(&mut rng, cfg, &img, len, &o, &cops) {
+                let mut img = img.clone();
+                let aligned = img.len();
+                if wb > 1 && matches!(be, RBackend::AdCursor | RBackend::AdBufReader) && hix % 2 == 1 {
+                    for _ in 0..1 + rng.below(wb as u64 - 1) {
+                        img.push(rng.below(256) as u8);
+                    }
+                }
+                for op in gen_history(&mut rng, cfg, &img[..aligned], len, &o, &cops) {
                     let is_pos = op == ROp::Pos;
                     ops.push(op);
                     if !is_pos {
@@ -160,5 +217,8 @@ pub fn run(ctx: &Ctx) -> Report {
 }
 
 pub fn replay(case: &str, rep: &mut Report) {
+    if case.starts_with("huge=") {
+        return super::huge::replay(case, rep);
+    }
     check("C07", &RCase::from_kv(case), rep, false);
 }
